@@ -62,6 +62,7 @@ let next_op st =
   | "R" -> OModDel (next_str st)
   | "S" -> OPathIns (next_str st)
   | "M" -> let k = next_key st in let c = n_of_int (next_int st) in OMutate (k, c)
+  | "F" -> let front = next_bool st in let h = n_of_int (next_int st) in OMetaIns (front, h)
   | t -> failwith ("bad op " ^ t)
 let next_ending st =
   match next st with
